@@ -27,6 +27,7 @@ import (
 	"os/exec"
 	"path/filepath"
 	"regexp"
+	"runtime"
 	"sort"
 	"strings"
 	"sync"
@@ -516,8 +517,17 @@ func runOracle(cf *hxlib.CommonFlags, o *hxlib.Out) {
 	os.MkdirAll(work, 0o755)
 	defer os.RemoveAll(work)
 	or := &oracle{o: o, repo: repo, work: work, perK: map[string]int{}}
-	quick := cf.Tier == "quick"
-	jobs := buildCorpus(repo, work, cf.Tier, cf.Seed, o)
+	quick := cf.Tier == "quick" || cf.Extra == "light"
+	tier := cf.Tier
+	ngen := 10
+	if cf.Extra == "light" {
+		// thorough tier, additional seeds: the quick corpus with many more generated programs
+		tier = "quick"
+		ngen = 40
+	} else if !quick {
+		ngen = 48
+	}
+	jobs := buildCorpus(repo, work, tier, cf.Seed, ngen, o)
 	if cf.Only >= 0 && cf.Only < len(jobs) {
 		jobs = []*Job{jobs[cf.Only]}
 	}
@@ -545,8 +555,17 @@ func runOracle(cf *hxlib.CommonFlags, o *hxlib.Out) {
 		var keep []*Job
 		var keepFirst []*Res
 		timings := map[string]int64{}
+		trace := os.Getenv("C08_TRACE") != ""
 		for _, j := range jobs {
+			if trace {
+				fmt.Fprintf(os.Stderr, "first-pass %s\n", j.Name)
+			}
 			r := compileFresh(j)
+			if trace {
+				var ms runtime.MemStats
+				runtime.ReadMemStats(&ms)
+				fmt.Fprintf(os.Stderr, "   %d ms gates=%d sys=%d MB err=%s\n", r.Ms, r.Gates, ms.Sys>>20, r.Err)
+			}
 			o.Count("compilations")
 			timings[j.Name] = r.Ms
 			if r.Ms > budget {
